@@ -58,7 +58,7 @@ def declared_twin(sc):
 def run(ctx):
     quick = ctx.tier == "quick"
     rng = random.Random(ctx.seed * 104729 + 10)
-    n = 1200 if quick else 30000
+    n = 1200 if quick else 12000
     pairs, metas = [], {}
     for k in range(n):
         g = gen.Gen(random.Random(rng.randint(0, 2 ** 60)), size=rng.randint(3, 8),
@@ -129,7 +129,7 @@ def run(ctx):
         except model.Invalid:
             ctx.inconclusive += 1
             ctx.count("invalid_scenarios")
-    disappeared_family(ctx, rng, 250 if quick else 5000)
+    disappeared_family(ctx, rng, 250 if quick else 2500)
     ctx.rule = ("twin scenarios of 3..8 statements (85%% with discovered deps, 35%% of generated headers without manifest path) x 1..4 "
                 "rounds of change sets + build; distinct_nontrivial = distinct (scenario, build step) twin comparisons in which at least "
                 "one statement with discovered dependencies was in the closure")
